@@ -225,12 +225,7 @@ func gv4(w *World, r *Report) {
 	}
 	pl := needFn(r, "Gv-4", w, fref{pkgProp, "powerOrderVoteOptions", "Less"})
 	if pl != nil {
-		ok := false
-		for _, b := range pl.Blocks {
-			if ret, isR := lastInstr(b).(*ssa.Return); isR {
-				ok = w.Canon(ret.Results[0]) == "(recv[p0].votes > recv[p1].votes)"
-			}
-		}
+		ok, _ := w.comparatorTable(pl).matchesLexicographic([]string{"#.votes"}, []int{-1})
 		r.Check(ok, "Gv-4", "powerOrderVoteOptions:descending", "options are ordered by votes, descending", "options are not sorted by votes descending (Options[0] would not be the top option)", fnSite(w, pl))
 	}
 	ap := w.anonOf(pkgGov, "GovCtrler", "applyProposals", 1)
